@@ -28,6 +28,7 @@ var cfgs = []famCfg{
 	{"acct+val", stategen.Families{Account: true, Validator: true}},
 	{"all", stategen.AllProduction()},
 	{"all", stategen.AllProduction()},
+	{"hotstorage", stategen.Families{Account: true, HotStorage: true}},
 }
 
 type snap struct {
